@@ -105,14 +105,21 @@ func (tr *FnTr) modelGetUint(s Val, n int, be bool, p token.Pos) Val {
 
 func (tr *FnTr) modelPutUint(s Val, v *Term, n int, be bool, p token.Pos) {
 	tr.check("index", Le(Int(int64(n)), s.L[2]), p)
+	tr.writeCheck(s.L[0], s.L[1], Add(s.L[1], Int(int64(n))))
 	arr := Select(tr.st.Mem, s.L[0])
+	// the bytes are the unique base-256 digits of v: linear characterisation
+	var parts []*Term
 	for i := 0; i < n; i++ {
 		sh := uint(8 * i)
 		if be {
 			sh = uint(8 * (n - 1 - i))
 		}
-		arr = Store(arr, Add(s.L[1], Int(int64(i))), Mod(Div(v, Pow2(sh)), Int(256)))
+		c := tr.vc.Fresh("putb", SInt)
+		tr.vc.Assume(And(Le(Int(0), c), Le(c, Int(255))))
+		parts = append(parts, Mul(c, Pow2(sh)))
+		arr = Store(arr, Add(s.L[1], Int(int64(i))), c)
 	}
+	tr.vc.Assume(Eq(Add(parts...), v))
 	tr.st.Mem = tr.vc.Def("mem", Store(tr.st.Mem, s.L[0], arr))
 }
 
